@@ -141,8 +141,11 @@ func (e *Exec) frameObligations(fr *Frame, exit *State, exitGuard string, envEnt
 		refs  []location
 	}
 	allow := map[string]*allowed{}
+	var locs []location
 	for _, m := range ctr.Modifies {
-		loc := e.evalLoc(m.E, envEntry)
+		locs = append(locs, e.evalLocs(m.E, envEntry)...)
+	}
+	for _, loc := range locs {
 		switch loc.kind {
 		case "ghost":
 			for _, c := range loc.comps {
